@@ -366,9 +366,9 @@ class SymExec:
         if want == 'i' and ck == 'p':
             if isinstance(cv, Ptr):
                 return PInt(cv.obj, cv.off)
-        if self.mode == 'fp' and want == 'i' and ck == 'f':
+        if self.mode != 'real' and want == 'i' and ck == 'f':
             return self.fp_to_bits(cv, cn * 8)
-        if self.mode == 'fp' and want == 'f' and ck == 'i':
+        if self.mode != 'real' and want == 'f' and ck == 'i':
             return self.bits_to_fp(cv, cn * 8)
         raise Unsupported('load of %s from a cell of kind %s' % (t.s(), ck))
 
@@ -502,6 +502,8 @@ class SymExec:
             return f32round(v.v) if t.bits == 32 else v.v
         if k == 'null':
             return Ptr(0, 0)
+        if k in ('meta', 'blockaddr'):
+            return None
         if k in ('undef', 'zero'):
             return self.zero_of(t)
         if k == 'global':
@@ -1428,7 +1430,7 @@ class SymExec:
         if n == 0:
             return
         if is_sym(dst.off) or is_sym(src.off):
-            raise Unsupported('memcpy with symbolic address')
+            return self.memcpy_symbolic(st, dst, src, n)
         so = st.mem[src.obj]
         do = st.wobj(dst.obj)
         if do.const:
@@ -1473,6 +1475,71 @@ class SymExec:
                 pass  # uninitialised bytes stay uninitialised
             else:
                 self.res.warnings.add('memcpy of partly uninitialised source into zero-default object %s' % do.name)
+
+    def memcpy_symbolic(self, st, dst, src, n):
+        """element copy where source and/or destination element index is symbolic: the objects are arrays of n-byte
+        elements with a uniform cell layout"""
+        so = st.mem[src.obj]
+        do = st.wobj(dst.obj)
+        if do.const:
+            raise Unsupported('memcpy into constant')
+
+        def layout(o, base):
+            return sorted((c - base, cell[1], cell[2]) for c, cell in o.cells.items() if base <= c < base + n)
+
+        def candidates(o, off):
+            if not is_sym(off):
+                return [off]
+            return [c for c in range(0, o.size - n + 1, n)]
+        sc = candidates(so, src.off)
+        dc = candidates(do, dst.off)
+        if not is_sym(src.off) and (src.off < 0 or src.off + n > so.size):
+            raise Unsupported('out-of-bounds memcpy source')
+        if not is_sym(dst.off) and (dst.off < 0 or dst.off + n > do.size):
+            raise Unsupported('out-of-bounds memcpy destination')
+        lay = layout(so, sc[0])
+        geom = lambda l: [(r, nb) for r, k, nb in l]
+        for c in sc[1:]:
+            if layout(so, c) != lay:
+                raise Unsupported('memcpy with symbolic source over non-uniform cells')
+        if sum(x[2] for x in lay) != n:
+            raise Unsupported('memcpy with symbolic address over partly uninitialised/punned source')
+        dlay = layout(do, dc[0]) if is_sym(dst.off) else None
+        for c in dc:
+            if is_sym(dst.off) and (layout(do, c) != dlay or geom(dlay) != geom(lay)):
+                # destination elements must already have the same scalar geometry (they are overwritten conditionally)
+                raise Unsupported('memcpy with symbolic destination over non-uniform cells')
+        if is_sym(src.off):
+            self.memory_query(st, src.off, sc, 'memcpy source ' + so.name)
+        if is_sym(dst.off):
+            self.memory_query(st, dst.off, dc, 'memcpy destination ' + do.name)
+        tymap = {('i', 1): llir.I8, ('i', 2): llir.int_ty(16), ('i', 4): llir.I32, ('i', 8): llir.I64, ('f', 8): llir.DOUBLE,
+                 ('f', 4): llir.FLOAT, ('p', 8): llir.PtrTy(llir.I8)}
+        vals = []
+        for rel, kind, nb in lay:
+            t = tymap[(kind, nb)]
+            v = so.cells[sc[-1] + rel][0]
+            for c in reversed(sc[:-1]):
+                v = self.ite(src.off == z3.BitVecVal(c, 64), so.cells[c + rel][0], v, t)
+            vals.append((rel, kind, nb, t, v))
+        if not is_sym(dst.off):
+            for c in [c for c, (cv, ck, cn) in do.cells.items() if dst.off <= c < dst.off + n]:
+                del do.cells[c]
+            for rel, kind, nb, t, v in vals:
+                do.cells[dst.off + rel] = (v, kind, nb)
+            return
+        dkind = {r: k for r, k, nb in dlay}
+        for c in dc:
+            cond = dst.off == z3.BitVecVal(c, 64)
+            for rel, kind, nb, t, v in vals:
+                dk = dkind[rel]
+                dt = tymap[(dk, nb)]
+                if dk != kind:
+                    v2 = self.cell_as((v, kind, nb), dt)
+                else:
+                    v2 = v
+                old = do.cells[c + rel][0]
+                do.cells[c + rel] = (self.ite(cond, v2, old, dt), dk, nb)
 
     def memset(self, st, dst, byte, n):
         if is_sym(n) or is_sym(byte) or is_sym(dst.off):
